@@ -128,7 +128,7 @@ def _simple(prop, P, nq, nt, mc=True):
 
 
 QOPS = dict(step=40, dispatch=0, post=25, defer=10, recall=10, is_in=2, child=1, scribble=3, clear_spy=1, clear_trace=1, empty_rtc=8)
-c14 = _simple("C14", gen.profile(hosts=(("queued", 1),), p_eff=0.5, live=0.0, clocks=("fine",), nops=(6, 16), w_ops=QOPS,
+c14 = _simple("C14", gen.profile(hosts=(("queued", 1),), p_eff=0.5, live=0.0, clocks=("fine",), nops=(6, 16), w_ops=dict(QOPS, circuit=10),
                                  caps=(2, 3, 500), p_fault=0.15), 2500, 40000)
 c15 = _simple("C15", gen.profile(hosts=(("queued", 1),), p_eff=0.5, live=0.0, clocks=("fine",), nops=(6, 16),
                                  w_ops=dict(QOPS, defer=25, recall=25), caps=(2, 3, 500), p_fault=0.1), 2500, 40000)
@@ -189,9 +189,11 @@ def _bad_maker(rng, P):
     cands = [x for x in range(1, n + 1) if x not in desc]     # itself, ancestors, unrelated states
     chart["bad"] = ["init", st, rng.choice(cands)]
     chart["init"][st - 1] = 0
-  else:
+  elif rng.random() < 0.5:
     st = rng.randint(1, n)
     chart["bad"] = ["none", st, rng.choice(chart["sigs"])]
+  else:
+    chart["bad"] = ["nosuper", rng.randint(1, n), ""]      # no status when asked for its super state (no final else clause)
   ops = gen.gen_ops(rng, chart, P)
   if rng.random() < 0.4:
     ops[0] = ["start", chart["bad"][1]]
@@ -204,7 +206,8 @@ def _reached_bad(t):
 
 def c24(tier):
   run = common.Run("C24", tier, "model_checking")
-  run.assumptions += ASSUME_SEQ + ["exactly one fault per chart: an initial transition whose target is not a proper descendant, or a handler returning None for an offered event"]
+  run.assumptions += ASSUME_SEQ + ["exactly one fault per chart: an initial transition whose target is not a proper descendant, a handler returning None for an offered event, "
+                                   "or a handler returning None when asked for its super state (no final else clause)"]
   P = gen.profile(nmin=1, nmax=9, deep=0.6, p_init=0.5, w_tran=45, w_none=40, w_hook=10, w_unh=5, live=0.0, clocks=("fine",),
                   p_eff=0.05, hosts=(("queued", 4), ("instr", 3), ("plain", 3)), p_spied=0.6, nops=(2, 8),
                   w_ops=dict(step=50, dispatch=40, post=0, defer=0, recall=0, is_in=3, child=0, scribble=0, clear_spy=0,
@@ -228,6 +231,7 @@ def _build_maker(rng, P):
   # what kind of callable the registered callbacks are: plain functions, functools.partial objects, objects with __call__,
   # or (template / Factory only: the generated text calls cb(chart, e)) bound methods of the chart
   chart["cbstyle"] = rng.choice(["def", "def", "partial", "object"] + (["method"] if chart["build"] in ("template", "factory") else []))
+  chart["decoy"] = rng.random() < 0.3       # a second chart object with the same state names, another hierarchy and other callbacks
   chart["host"] = "factory" if chart["build"] == "factory" or (chart["build"] == "tocode" and rng.random() < 0.3) else "queued"
   chart["live_spy"] = chart["live_trace"] = False
   if chart["host"] == "factory":
@@ -286,6 +290,12 @@ def _config_maker(rng, P, tid, seed):
       ops += [["post_fifo", sg], ["next_rtc"]]
     else:
       ops.append(["dispatch", sg])
+  if base.random() < 0.3:
+    # the chart is started again at the end (after its trace was cleared, where the host can do that): the same entries must run in
+    # every configuration
+    if host == "queued":
+      ops.append(["clear_trace"])
+    ops.append(["start", base.randint(1, n)])
   return chart, ops
 
 
